@@ -87,7 +87,9 @@ class World:
                 dicts[d['ent']][name] = attr
                 self.attrs[(i, sn == 'b')] = attr
                 self.names[(i, sn == 'b')] = name
-        for e in range(nent): dicts[e]['tag'] = Required(int)
+        for e in range(nent):
+            dicts[e]['tag'] = Required(int)
+            dicts[e]['val'] = Optional(int)          # a plain column: pending UPDATEs around refused deletes
         self.classes = [type('E%d' % e, (db.Entity,), dicts[e]) for e in range(nent)]
         db.bind('sqlite', ':memory:')
         db.generate_mapping(create_tables=True)
@@ -184,7 +186,7 @@ class World:
     # ---- raw database
     def raw(self):
         """rows / FK columns / link rows through a raw connection, in model ids; plus `PRAGMA foreign_key_check` and explicit joins"""
-        res = {'rows': [], 'cols': [], 'links': [], 'fk_check': [], 'orphans': []}
+        res = {'rows': [], 'cols': [], 'links': [], 'vals': [], 'fk_check': [], 'orphans': []}
         with db_session:
             con = self.db.get_connection()
             cur = con.cursor()
@@ -196,6 +198,8 @@ class World:
                 pk2id.append({pk: tag for pk, tag in cur.fetchall()})
             for e, cls in enumerate(self.classes):
                 res['rows'] += sorted(pk2id[e].values())
+                cur.execute('SELECT "tag", "val" FROM "%s"' % cls._table_)
+                res['vals'] += [[tag, v] for tag, v in cur.fetchall()]
                 for key in self.ent_attrs[e]:
                     attr = self.attrs[key]
                     t = self.side(self.rev(key))['ent']
@@ -214,7 +218,7 @@ class World:
                                 res['orphans'].append(['link', self.names[key], p, q]); continue
                             res['links'].append([key[0], key[1], pk2id[e][p], pk2id[t][q]])
             rollback()
-        res['rows'].sort(); res['cols'].sort(key=lambda c: (c[0], c[1], c[2])); res['links'].sort()
+        res['rows'].sort(); res['cols'].sort(key=lambda c: (c[0], c[1], c[2])); res['links'].sort(); res['vals'].sort()
         return res
 
     def on_delete_actions(self):
@@ -367,7 +371,9 @@ def session_diff(before, after):
 # ---------------------------------------------------------------- one history of object deletes
 
 def run_deletes(w, state0, plan):
-    """fresh session; plan = [['obj', i] | ['query', e, [ids]]]; returns per-step records and what the database holds after commit"""
+    """fresh session; plan = [['load', [ids]] | ['mod', i, k] | ['obj', i] | ['query', e, [ids]]]; returns per-step records and the commit error.
+    'load' fetches objects up front (later steps then find them in the identity map: no query, so no flush of pending changes);
+    'mod' assigns the plain column `val` (a pending UPDATE whose place in objects_to_save depends on what happened since the last flush)"""
     steps = []
     commit_err = None
     with db_session:
@@ -383,6 +389,19 @@ def run_deletes(w, state0, plan):
             return sorted(mid(o) for o in list(cache.objects) if isinstance(o, tuple(w.classes)) and o._status_ in DEL)
         for st in plan:
             err = None; target_missing = False
+            if st[0] in ('load', 'mod'):
+                try:
+                    if st[0] == 'load':
+                        for i in st[1]: get(i)
+                    else:
+                        o = get(st[1])
+                        if o is None: target_missing = True
+                        else: o.val = st[2]
+                except Exception as e:
+                    err = type(e).__name__
+                steps.append({'err': err, 'missing': True, 'kind': st[0], 'target_missing': target_missing, 'dead': deleted_now(), 'diff': None, 'dangling': [],
+                              'queue': [None if x is None else mid(x) for x in cache.objects_to_save]})
+                continue
             try:
                 if st[0] == 'obj': o = get(st[1])        # loading the target is a query: Pony flushes pending changes first
                 else: flush()                             # so does the SELECT of a query delete
@@ -427,7 +446,8 @@ def flat_plan(w, state, plan):
     """the sequence of `_delete_` targets a plan amounts to (query deletes fetch in primary-key order = creation order)"""
     out = []
     for st in plan:
-        if st[0] == 'obj': out.append([st[1]] if st[1] < len(w.ents) else [])
+        if st[0] in ('load', 'mod'): out.append([])
+        elif st[0] == 'obj': out.append([st[1]] if st[1] < len(w.ents) else [])
         else: out.append(sorted(i for i in st[2] if i < len(w.ents) and w.ents[i] == st[1]))
     return out
 
@@ -452,7 +472,8 @@ def _check_history(ctx, w, schema, prog, plan, state0, report):
     inp = {'schema': schema, 'prog': prog, 'plan': plan}
     raw0 = w.raw()
     sdb0 = spec_db(w, state0)
-    if (raw0['rows'], raw0['cols'], raw0['links']) != (sdb0['rows'], sdb0['cols'], sdb0['links']):
+    vals = {i: None for i in range(len(state0))}       # expected content of the plain column
+    if (raw0['rows'], raw0['cols'], raw0['links']) != (sdb0['rows'], sdb0['cols'], sdb0['links']) or raw0['vals'] != [[i, None] for i in sdb0['rows']]:
         ctx.divergence('rows read through a raw connection differ from what the public API shows', inp, model=sdb0, impl=raw0)
         return None
     steps, commit_err = run_deletes(w, state0, plan)
@@ -464,7 +485,17 @@ def _check_history(ctx, w, schema, prog, plan, state0, report):
     groups = flat_plan(w, state0, plan)
     model_dels = []
     for st, grp, rec in zip(plan, groups, steps):
-        if rec['missing']:                       # the row is gone (deleted by an earlier step): nothing to call
+        if rec.get('kind') == 'mod':
+            i = st[1]
+            if rec['target_missing'] or i >= len(state): continue
+            if state[i]['alive']:
+                if rec['err'] is None:
+                    vals[i] = st[2]
+                    ctx.count('mod:pending-update-at-queue-position:%s' % (rec['queue'].index(i) if i in rec['queue'] else 'none'))
+                elif not viol: viol = ('assignment-raised:' + rec['err'], {'step': st})
+            else: ctx.count('mod:on-deleted-object:%s' % rec['err'])
+            continue
+        if rec['missing']:                       # a 'load' step, or the row is gone (deleted by an earlier step): nothing to call
             continue
         if rec['dangling'] and not viol:
             viol = ('session-dangling:%s:%s' % (rec['err'] or 'ok', rec['dangling'][0][3]), {'step': st, 'live object holds a deleted one': rec['dangling'][0][:3]})
@@ -530,7 +561,8 @@ def _check_history(ctx, w, schema, prog, plan, state0, report):
         if rec['err'] and rec['diff'] and not viol and not (st[0] == 'query' and went_through):     # earlier targets of a query delete stay deleted
             viol = ('failed-delete-changed-session:' + rec['err'], {'step': st, 'difference': rec['diff']})
     expect = spec_db(w, state)
-    got = {'rows': raw1['rows'], 'cols': raw1['cols'], 'links': raw1['links']}
+    expect['vals'] = [[i, vals[i]] for i in expect['rows']]          # pending updates of surviving objects must have been written
+    got = {'rows': raw1['rows'], 'cols': raw1['cols'], 'links': raw1['links'], 'vals': raw1['vals']}
     if raw1['fk_check'] or raw1['orphans']:
         viol = viol or ('dangling-after-commit', {'foreign_key_check': raw1['fk_check'], 'orphans': raw1['orphans']})
     if not raw1['fk_on']:
@@ -539,7 +571,7 @@ def _check_history(ctx, w, schema, prog, plan, state0, report):
         ctx.count('commit-failed:' + commit_err)
         if not any(commit_err.endswith(x) for x in ('OptimisticCheckError', 'IntegrityError', 'TransactionIntegrityError', 'ConstraintError')):
             ctx.note('flush/commit after the deletes raised %s: %s' % (commit_err, json.dumps(inp)))
-        base = {'rows': raw0['rows'], 'cols': raw0['cols'], 'links': raw0['links']}
+        base = {'rows': raw0['rows'], 'cols': raw0['cols'], 'links': raw0['links'], 'vals': raw0['vals']}
         if got != base and not viol: viol = ('failed-commit-changed-database:' + commit_err, {'before': base, 'after': got})
         elif not viol and not any(r['err'] for r in steps):
             if cycle_ok and commit_err.endswith('OptimisticCheckError'):
@@ -549,7 +581,12 @@ def _check_history(ctx, w, schema, prog, plan, state0, report):
             else:
                 viol = ('commit-failed-after-successful-deletes:' + commit_err, {'plan': plan})
     elif got != expect and not viol:
-        viol = ('database-differs-from-prescribed-state', {'database': got, 'prescribed': expect})
+        if {k: v for k, v in got.items() if k != 'vals'} == {k: v for k, v in expect.items() if k != 'vals'}:
+            refused = [r['err'] for r in steps if r['err'] and not r.get('kind')]
+            viol = ('pending-update-lost' + (':after-refused-delete' if refused else ''),
+                    {'column val in the database': got['vals'], 'assigned in the session': expect['vals'], 'refused deletes': refused})
+        else:
+            viol = ('database-differs-from-prescribed-state', {'database': got, 'prescribed': expect})
     # ---------------- correspondence with the Lean model
     if report:
         tie(ctx, w, inp, state0, plan, groups, steps, commit_err, got)
@@ -628,7 +665,7 @@ def tie_eval(ctx, inp, plan, groups, steps, marks, commit_err, got, out):
     if commit_err: return
     mdb = out['db']
     mgot = {'rows': mdb['rows'], 'cols': sorted(mdb['cols'], key=lambda c: (c[0], c[1], c[2])), 'links': sorted(mdb['links'])}
-    if mgot != got:
+    if mgot != {k: v for k, v in got.items() if k != 'vals'}:
         ctx.divergence('database after commit differs from commit(model store)', inp, model=mgot, impl=got)
     elif not out['fk']:
         ctx.divergence('model database violates its own FK check', inp, model=mdb)
@@ -690,6 +727,8 @@ WHAT = {
     'session-dangling': 'after the call a live object of the session still holds a deleted object (reference / collection membership not cleared)',
     'refused-without-required-dependent': 'ConstraintError although no required dependent exists',
     'bulk-dangling': 'a bulk delete left a reference to a missing row',
+    'pending-update-lost': 'an assignment made in the session was not written by the commit',
+    'assignment-raised': 'assigning a plain attribute of a live object raised',
     'commit-failed-after-successful-deletes': 'every delete succeeded but the commit raised',
     'failed-commit-changed-database': 'a commit that raised changed the database',
     'delete-raised': 'a delete raised an error the property does not allow',
@@ -713,7 +752,66 @@ def gen_plan(rng, w, state0):
             e = rng.randrange(w.schema['nent'])
             ids = sorted(set(rng.randrange(n) for _ in range(rng.choice([1, 2, 3]))))
             plan.append(['query', e, ids])
+    if rng.random() < 0.6:
+        # pending UPDATEs before / between the deletes: of cascade children and required dependents of the delete targets (they are
+        # cascade-deleted and, when the delete is refused, must come back WITH their pending update), of the targets, of anything
+        targets = [st[1] for st in plan if st[0] == 'obj']
+        near = sorted(set(q for t in targets for key in w.ent_attrs[state0[t]['ent']] for q in held(state0[t], key)))
+        k = 0
+        for _ in range(rng.choice([1, 1, 2, 3])):
+            pool = near if (near and rng.random() < 0.6) else (targets if (targets and rng.random() < 0.4) else list(range(n)))
+            k += 1
+            plan.insert(rng.choice([0, 0, 0, rng.randrange(len(plan) + 1)]), ['mod', rng.choice(pool), k])
+        if rng.random() < 0.75:
+            # everything fetched up front: later steps run no query, so nothing is flushed in between and the first assignment
+            # becomes objects_to_save[0]
+            plan.insert(0, ['load', list(range(n))])
     return plan
+
+
+def gen_refusal_case(rng):
+    """a family aimed at the undo of a refused delete: entity 0 has a cascading relationship (declared first, so its dependents are
+    cascade-deleted) and then a relationship that refuses (Required dependents without cascade); dependents / the parent get
+    pending UPDATEs at varying places of the save queue before the delete"""
+    nent = rng.choice([2, 3, 3])
+    ek, ed = rng.randrange(1, nent), rng.randrange(1, nent)
+    casc_rel = rng.choice([
+        {'kind': 'm2o', 'sym': False, 'a': S(0, coll=True, casc=True), 'b': S(ek)},
+        {'kind': 'm2o', 'sym': False, 'a': S(0, coll=True), 'b': S(ek, req=True)},              # default cascade
+        {'kind': 'o2o', 'sym': False, 'a': S(0, casc=True), 'b': S(ek)}])
+    block_rel = rng.choice([
+        {'kind': 'm2o', 'sym': False, 'a': S(0, coll=True, casc=False), 'b': S(ed, req=True)},
+        {'kind': 'o2o', 'sym': False, 'a': S(0), 'b': S(ed, req=True)}])
+    rels = [casc_rel, block_rel]
+    if rng.random() < 0.4: rels.append(rng.choice(gen_schema(rng)['rels']))
+    for r in rels[2:]:
+        for sn in ('a', 'b'):
+            if sn in r: r[sn]['ent'] %= nent
+    schema = {'nent': nent, 'rels': rels}
+    prog = [['create', 0, []], ['flush']]
+    nk = 1 if casc_rel['kind'] == 'o2o' else rng.choice([1, 2, 3])
+    nd = 1 if block_rel['kind'] == 'o2o' else rng.choice([1, 1, 2])
+    def child(e, rel_index, extra):
+        vals = [[[rel_index, True], 0]]
+        # Required references of the other relationships of that entity must be given too
+        for j, r in enumerate(rels):
+            for sn in ('a', 'b'):
+                if sn in r and (j, sn) != (rel_index, 'b') and r[sn]['ent'] == e and not r[sn]['coll'] and (r[sn]['req'] or rng.random() < 0.3):
+                    vals.append([[j, sn == 'b'], 0])
+        return ['create', e, sorted(vals, key=lambda v: (v[0][0], v[0][1]))]
+    kids = []
+    n = 1
+    for _ in range(nk): prog += [child(ek, 0, None), ['flush']]; kids.append(n); n += 1
+    docs = []
+    for _ in range(nd): prog += [child(ed, 1, None), ['flush']]; docs.append(n); n += 1
+    plan = [['obj', 0]]
+    k = 0
+    for _ in range(rng.choice([1, 1, 2, 3])):
+        k += 1
+        plan.insert(rng.choice([0, 0, len(plan) - 1]), ['mod', rng.choice(kids + kids + docs + [0]), k])
+    if rng.random() < 0.8: plan.insert(0, ['load', list(range(n))])
+    if rng.random() < 0.3: plan.append(['obj', rng.choice(kids + docs)])
+    return schema, prog, plan
 
 
 def linked_tie(ctx):
@@ -876,10 +974,22 @@ W_STUB = {        # deleting an object the session knows by primary key only lea
              ['create', 0, [[[0, False], 0], [[1, False], None], [[1, True], None]]], ['flush'],
              ['create', 0, [[[0, False], None], [[1, False], 1], [[1, True], None]]], ['flush']],
     'plan': [['obj', 2], ['obj', 1]]}
+R_PENDING = {     # regression input: a cascade child with a pending UPDATE at objects_to_save[0] is cascade-deleted by a delete that a later
+                  # relationship (Required dependents, no cascade) then refuses: the undo must put the child back WITH its pending update
+    'schema': {'nent': 3, 'rels': [{'kind': 'm2o', 'sym': False, 'a': S(0, coll=True, casc=True), 'b': S(1)},
+                                   {'kind': 'm2o', 'sym': False, 'a': S(0, coll=True, casc=False), 'b': S(2, req=True)}]},
+    'prog': [['create', 0, []], ['flush'], ['create', 1, [[[0, True], 0]]], ['flush'], ['create', 2, [[[1, True], 0]]], ['flush']],
+    'plan': [['load', [0, 1, 2]], ['mod', 1, 7], ['obj', 0]]}
+REGRESSIONS = [('refused-delete-keeps-pending-update', R_PENDING)]
 WITNESSES = [('stub-delete-stale-collection', W_STUB), ('cascade-cycle-one-to-one', W_CYCLE_O2O), ('cascade-cycle-self-parent', W_CYCLE_SELF), ('required-one-to-one-cascade', W_REQ_O2O)]
 
 
 def witnesses(ctx):
+    for name, wi in REGRESSIONS:
+        ctx.case({'regression': name}, nontrivial=True, kind='regression')
+        v = check_history(ctx, wi['schema'], wi['prog'], wi['plan'])
+        if v is not None: report(ctx, wi['schema'], wi['prog'], wi['plan'], v)
+        else: ctx.count('regression-input-passes:' + name)
     for name, wi in WITNESSES:
         ctx.case({'witness': name}, nontrivial=True, kind='witness')
         v = check_history(ctx, wi['schema'], wi['prog'], wi['plan'])
@@ -913,6 +1023,15 @@ def run(ctx):
     witnesses(ctx)
     nhist = ctx.scale(400, 6000)
     for h in range(nhist):
+        if rng.random() < 0.12:
+            schema, prog, plan = gen_refusal_case(rng)
+            ctx.case({'refusal-family': schema, 'plan': plan}, nontrivial=True, kind='refusal-family')
+            try:
+                v = check_history(ctx, schema, prog, plan)
+            except (TypeError, core.ERDiagramError) as e:
+                ctx.count('schema-rejected:' + type(e).__name__); continue
+            if v is not None: report(ctx, schema, prog, plan, v)
+            continue
         schema = gen_schema(rng)
         try:
             w = World(schema)
